@@ -85,9 +85,14 @@ def check_list(sched, all_jobs, where):
                      % (lab, num_of[lab], r, num_of[str(r)], where))
 
 
-def graph_harness(name, n, perm_mode, selfloops, placements, mutate):
+def graph_harness(name, n, perm_mode, selfloops, placements, mutate, empty_node=False):
     def fn(api):
         jobs = make_jobs(api, n, perm_mode)
+        if empty_node:
+            # one of the nodes may be an empty nested scheduler (a job like any other, but falsy: it has __len__)
+            k = api.choice("empty_sched_node", n + 1)
+            if k < n:
+                jobs[k] = GSched("j%d" % k, jobs[k]._vh)
         req = {j: set() for j in jobs}
         nedges = 0
         for a in jobs:
@@ -142,6 +147,16 @@ def _place(place, jobs):
         x = GJob("x", 0)
         mid.requires(x)
         return GSched("S", 0, x, mid), inner
+    if place == "nested2+tail":
+        inner = GSched("N", 1, *jobs)
+        y = GJob("y", 0)
+        inner.requires(y)
+        mid = GSched("M", 1, y, inner)
+        x = GJob("x", 0)
+        mid.requires(x)
+        z = GJob("z", 2)
+        z.requires(mid)
+        return GSched("S", 0, x, mid, z), inner
     if place == "pure-over-nested":
         inner = GSched("N", 1, *jobs)
         x = GJob("x", 0)
@@ -173,10 +188,14 @@ def harnesses(tier):
             graph_harness("n3-all-orders-selfloops-mutation", 3, "free", True,
                           ["pure", "sched", "nested1", "nested2", "pure-over-nested"], True),
             graph_harness("n4-identity-order", 4, "id", False, ["pure", "nested1"], False),
+            graph_harness("n3-with-an-empty-nested-scheduler", 3, "free", False, ["pure", "sched", "nested2+tail"],
+                          False, empty_node=True),
         ]
     return [
         graph_harness("n3-all-orders-selfloops-mutation", 3, "free", True,
                       ["pure", "sched", "nested1", "nested2", "pure-over-nested"], True),
         graph_harness("n4-all-orders", 4, "free", False, ["pure", "sched"], False),
-        graph_harness("n4-selfloops-nested-mutation", 4, "two", True, ["nested1", "nested2"], True),
+        graph_harness("n4-selfloops-nested-mutation", 4, "two", True, ["nested1", "nested2", "nested2+tail"], True),
+        graph_harness("n4-with-an-empty-nested-scheduler", 4, "free", False, ["pure", "sched", "nested2+tail"],
+                      False, empty_node=True),
     ]
